@@ -1,6 +1,7 @@
 import os
 import stat
 from typing import Iterable, Optional
+from urllib.parse import quote
 
 from baize import staticfiles
 from baize.datastructures import URL
@@ -76,16 +77,19 @@ class Pages(Files):
     ) -> Iterable[bytes]:
         if_none_match: str = environ.get("HTTP_IF_NONE_MATCH", "")
         if_modified_since: str = environ.get("HTTP_IF_MODIFIED_SINCE", "")
-        filepath = self.ensure_absolute_path(
-            decode_path(environ.get("PATH_INFO", ""))
-        )
+        path = decode_path(environ.get("PATH_INFO", ""))
+        filepath = self.ensure_absolute_path(path)
         stat_result, is_file = self.check_path_is_file(filepath)
+        # only the requested path itself can be a directory URL, not a candidate
+        # ("index.html" appended for a trailing slash, ".html" appended below)
+        as_requested = not path.endswith("/")
         if (
             stat_result is None  # filepath is not exist
             and filepath is not None  # Just for type check
             and not filepath.endswith(".html")  # filepath is not a html file
         ):
             filepath += ".html"
+            as_requested = False
             stat_result, is_file = self.check_path_is_file(filepath)
 
         if stat_result is not None:
@@ -94,10 +98,10 @@ class Pages(Files):
                 return self.file_response(
                     filepath, stat_result, if_none_match, if_modified_since
                 )(environ, start_response)
-            if stat.S_ISDIR(stat_result.st_mode):
+            if as_requested and stat.S_ISDIR(stat_result.st_mode):
                 try:
                     url = URL(environ=environ)
-                    url = url.replace(scheme="", path=url.path + "/")
+                    url = url.replace(scheme="", path=quote(url.path + "/"))
                 except ValueError:  # malformed Host header, path that is not UTF-8
                     raise HTTPException(400) from None
                 return RedirectResponse(url)(environ, start_response)
